@@ -31,7 +31,7 @@ type notifRec struct {
 // a notification is appended and sent while the mutex is held, so its place in the order is the place
 // of the channel send).
 type tokRec struct {
-	kind byte // 'P' production start, 'e' production end, 'n' notification, 'p' probe
+	kind byte // 'P' production start, 'e' production end, 'n' notification, 'p' probe, 'w'/'q' notification/probe scripted relative to the call of AggregationLoop
 	k, j int
 	at   float64
 }
@@ -40,6 +40,8 @@ type measurement struct {
 	starts, ends []float64 // ends[i] < 0: production i was still in flight when the run was cancelled
 	causes       []string  // lazy mode: `mode` of the i-th "published block" debug line of produceBlock
 	notifs       []notifRec
+	bootNotifs   []notifRec // NotifyNewTransactions calls scripted relative to the call of AggregationLoop (sn=)
+	loopCalled   float64    // when AggregationLoop was called (ms after the reference instant; scenarios with since=)
 	toks         []tokRec
 	late         float64 // largest lateness (ms) of a scripted notification / probe / production end
 	stopMs       float64 // when ctx was cancelled
@@ -77,6 +79,8 @@ func (ms *measurement) outcome(lazy bool, upto int) string {
 			out = append(out, fmt.Sprintf("%s%d", ms.causeOf(lazy, t.k), t.k))
 		case 'e':
 			out = append(out, fmt.Sprintf("e%d", t.k))
+		case 'w', 'q':
+			out = append(out, fmt.Sprintf("%c%d", t.kind, t.j))
 		default:
 			out = append(out, fmt.Sprintf("%c%d.%d", t.kind, t.k, t.j))
 		}
@@ -116,15 +120,22 @@ func newManager(sc *script, logger logging.EventLogger) (*block.Manager, func(),
 }
 
 func newManagerWith(sc *script, logger logging.EventLogger, maxPending uint64) (*block.Manager, func(), error) {
-	priv, pub, err := crypto.GenerateEd25519Key(nil)
+	priv, _, err := crypto.GenerateEd25519Key(nil)
 	if err != nil {
 		return nil, nil, err
 	}
+	return newManagerOn(sc, logger, maxPending, priv, time.Now().Add(-time.Hour), hx.NewLogDS(nil), &hx.Seq{})
+}
+
+// newManagerOn: a Manager for the given signer key and genesis time on the given datastore (a second
+// Manager on the datastore of a first one is a restart of the node).
+func newManagerOn(sc *script, logger logging.EventLogger, maxPending uint64, priv crypto.PrivKey, genesisTime time.Time, dstore *hx.LogDS, seq *hx.Seq) (*block.Manager, func(), error) {
+	pub := priv.GetPublic()
 	sg, err := noopsigner.NewNoopSigner(priv)
 	if err != nil {
 		return nil, nil, err
 	}
-	gen := genesispkg.NewGenesis("c17", 1, time.Now().Add(-time.Hour), types.KeyAddress(pub))
+	gen := genesispkg.NewGenesis("c17", 1, genesisTime, types.KeyAddress(pub))
 	root, err := os.MkdirTemp(workDir(), "c17-")
 	if err != nil {
 		return nil, nil, err
@@ -138,13 +149,68 @@ func newManagerWith(sc *script, logger logging.EventLogger, maxPending uint64) (
 	cf.Node.LazyBlockInterval.Duration = time.Duration(sc.I) * time.Millisecond
 	cf.DA.BlockTime.Duration = time.Second
 	cf.Node.MaxPendingHeadersAndData = maxPending
-	m, err := block.NewManager(context.Background(), sg, cf, gen, storepkg.New(hx.NewLogDS(nil)), &hx.Exec{}, &hx.Seq{}, hx.NewDA(),
+	m, err := block.NewManager(context.Background(), sg, cf, gen, storepkg.New(dstore), &hx.Exec{}, seq, hx.NewDA(),
 		logger, nil, nil, &hx.Bcast[*types.SignedHeader]{}, &hx.Bcast[*types.Data]{}, block.NopMetrics(), -1, 0, block.DefaultManagerOptions())
 	if err != nil {
 		cleanup()
 		return nil, nil, err
 	}
 	return m, cleanup, nil
+}
+
+// startLead: how long before the call of AggregationLoop the Manager of a start-up scenario is built
+const startLead = 80 * time.Millisecond
+
+// startManager builds the Manager of a scenario and returns the reference instant of its start-up wait.
+//   - no `since`: genesis time an hour ago, empty store — no wait (ref is not used);
+//   - via=genesis: empty store (height 0 < initial height 1), genesis time = ref chosen so that the loop
+//     can be called `since` ms after it;
+//   - via=last: a first Manager produces REAL BLOCKS (real publishBlock, hx doubles; heights 1 and 2, the
+//     time of the last one = now) into a datastore, then the Manager under test is opened on that datastore — the restart of a node
+//     right after a block; ref = LastBlockTime of the state it loaded.
+func startManager(sc *script, lg logging.EventLogger) (*block.Manager, time.Time, func(), error) {
+	if sc.since < 0 {
+		m, cleanup, err := newManager(sc, lg)
+		return m, time.Time{}, cleanup, err
+	}
+	priv, _, err := crypto.GenerateEd25519Key(nil)
+	if err != nil {
+		return nil, time.Time{}, nil, err
+	}
+	since := time.Duration(sc.since) * time.Millisecond
+	if sc.via == "genesis" {
+		ref := time.Now().Add(startLead - since)
+		m, cleanup, err := newManagerOn(sc, lg, 0, priv, ref, hx.NewLogDS(nil), &hx.Seq{})
+		return m, ref, cleanup, err
+	}
+	dstore := hx.NewLogDS(nil)
+	genesisTime := time.Now().Add(-time.Hour)
+	blockTime := time.Now()
+	seq := &hx.Seq{Next: &hx.SeqResp{Txs: [][]byte{{0xc1, 0x7}}, Ts: blockTime}}
+	m1, cleanup1, err := newManagerOn(sc, logging.Logger("verif"), 0, priv, genesisTime, dstore, seq)
+	if err != nil {
+		return nil, time.Time{}, nil, err
+	}
+	// height 1 is the block NewManager itself stored for the initial height (time = genesis time; publishBlock
+	// finds it as "pending block"); height 2 is created from the batch, with the batch's time
+	if err = m1.VerifPublishBlock(context.Background()); err == nil {
+		err = m1.VerifPublishBlock(context.Background())
+	}
+	cleanup1()
+	if err != nil {
+		return nil, time.Time{}, nil, fmt.Errorf("the block before the restart: %w", err)
+	}
+	m, cleanup, err := newManagerOn(sc, lg, 0, priv, genesisTime, dstore, &hx.Seq{})
+	if err != nil {
+		return nil, time.Time{}, nil, err
+	}
+	h, _ := m.GetStoreHeight(context.Background())
+	ref := m.GetLastState().LastBlockTime
+	if d := ref.Sub(blockTime); h != 2 || d > time.Millisecond || d < -time.Millisecond {
+		cleanup()
+		return nil, time.Time{}, nil, fmt.Errorf("restart: store height %d (want 2), LastBlockTime of the loaded state %v, time of the block %v", h, ref, blockTime)
+	}
+	return m, ref, cleanup, nil
 }
 
 func sleepUntil(ctx context.Context, t time.Time) bool {
@@ -167,7 +233,7 @@ func sleepUntil(ctx context.Context, t time.Time) bool {
 // real block (hx doubles), then one header is pending and the next call must refuse.  Returns what the
 // refusing call returned and whether the height moved.
 func refusalProbe() (refusedSilently bool, detail string) {
-	sc := &script{mode: "lazy", B: 200, I: 1000}
+	sc := &script{mode: "lazy", B: 200, I: 1000, since: -1}
 	m, cleanup, err := newManagerWith(sc, logging.Logger("verif"), 1)
 	if err != nil {
 		return false, "NewManager: " + err.Error()
@@ -198,7 +264,7 @@ func runReal(sc *script) (ms measurement, err error) {
 		ms.causes = append(ms.causes, mode)
 		mu.Unlock()
 	}
-	m, cleanup, err := newManager(sc, lg)
+	m, ref, cleanup, err := startManager(sc, lg)
 	if err != nil {
 		return ms, err
 	}
@@ -234,11 +300,18 @@ func runReal(sc *script) (ms measurement, err error) {
 		}
 		at := since(time.Now())
 		lateBy(target)
-		if notif {
+		switch {
+		case notif && k < 0:
+			push(tokRec{kind: 'w', k: k, j: j, at: at})
+			m.NotifyNewTransactions()
+			ms.bootNotifs = append(ms.bootNotifs, notifRec{at: at, k: k, j: j})
+		case notif:
 			push(tokRec{kind: 'n', k: k, j: j, at: at})
 			m.NotifyNewTransactions()
 			ms.notifs = append(ms.notifs, notifRec{at: at, k: k, j: j})
-		} else {
+		case k < 0:
+			push(tokRec{kind: 'q', k: k, j: j, at: at})
+		default:
 			push(tokRec{kind: 'p', k: k, j: j, at: at})
 		}
 	}
@@ -288,6 +361,25 @@ func runReal(sc *script) (ms measurement, err error) {
 		}
 	}()
 	t0 = time.Now()
+	if sc.since >= 0 {
+		// the clock of the scenario starts at the reference instant of the start-up wait (time of the last
+		// block / genesis time); AggregationLoop is called `since` ms later
+		t0 = ref
+		call := ref.Add(time.Duration(sc.since) * time.Millisecond)
+		for j, o := range sc.sn {
+			wg.Add(1)
+			go event(call.Add(time.Duration(o)*time.Millisecond), true, -1, j)
+		}
+		for j, o := range sc.sp {
+			wg.Add(1)
+			go event(call.Add(time.Duration(o)*time.Millisecond), false, -1, j)
+		}
+		sleepUntil(ctx, call)
+		mu.Lock()
+		lateBy(call)
+		ms.loopCalled = since(time.Now())
+		mu.Unlock()
+	}
 	go func() {
 		defer close(done)
 		defer func() {
@@ -328,6 +420,7 @@ func runReal(sc *script) (ms measurement, err error) {
 	// copy under the lock (the loop goroutine may still be alive if it did not exit)
 	out := measurement{starts: append([]float64(nil), ms.starts...), ends: append([]float64(nil), ms.ends...),
 		causes: append([]string(nil), ms.causes...), notifs: append([]notifRec(nil), ms.notifs...), toks: append([]tokRec(nil), ms.toks...),
+		bootNotifs: append([]notifRec(nil), ms.bootNotifs...), loopCalled: ms.loopCalled,
 		late: ms.late, stopMs: ms.stopMs, noise: ms.noise, exited: ms.exited, panicked: ms.panicked, loopErr: ms.loopErr}
 	return out, nil
 }
